@@ -936,8 +936,10 @@ def _tool_setup(op, Perm, PS):
     return thunk, objs, verify, warm
 
 
-def abort_case(part, op, k_list=None):
-    """All injection points (or those in k_list) of one operation.  Returns number of points."""
+def abort_case(part, op, k_list=None, stride=(0, 1)):
+    """All injection points of one operation (or those in k_list; or every stride[1]-th one starting
+    at 1 + stride[0], so that a long operation is shared between workers).  Returns the number of
+    points of the operation."""
     import os
     import signal
     import sys
@@ -976,7 +978,7 @@ def abort_case(part, op, k_list=None):
     old_hook = sys.unraisablehook
     sys.unraisablehook = lambda unraisable: None
     try:
-        for k in (k_list if k_list is not None else range(1, total + 1)):
+        for k in (k_list if k_list is not None else range(1 + stride[0], total + 1, stride[1])):
             case = {"op": op, "abort_at_call": k}
             st = setup()
             finished, _ = _run_with_abort(st[0], k, root)
@@ -1026,12 +1028,21 @@ def jsonable_case(case):
     return jsonable(case)
 
 
+ABORT_LONG = ("equally_distributed", "jointly_equally_distributed", "check_all_transformed",
+              "check_all_preservations")
+
+
 def shard_abort(shard):
     part = Partial()
     for op in shard:
-        total = abort_case(part, op)
-        part.bump("abort_points", total)
-        part.bump("abort_operations", 1)
+        stride = (0, 1)
+        if op[0] == "stride":
+            _, i, nparts, op = op
+            stride = (i, nparts)
+        total = abort_case(part, op, stride=stride)
+        if stride[0] == 0:
+            part.bump("abort_points", total)
+            part.bump("abort_operations", 1)
     return part
 
 
@@ -1884,7 +1895,14 @@ def run(ctx, only=None):
     if want("abort"):
         e0 = ctx.evals
         ops, tools = abort_ops(quick)
-        ctx.pmap(shard_abort, split(ops, 96) + [[t] for t in tools])
+        nparts = 4 if quick else 12
+        tshards = []
+        for t in tools:
+            if t[0] in ABORT_LONG:
+                tshards += [[["stride", i, nparts, t]] for i in range(nparts)]
+            else:
+                tshards.append([t])
+        ctx.pmap(shard_abort, split(ops, 96) + tshards)
         ctx.bounds["abort"] = {
             "operations": "every method on every permutation of length <= 4 (%d operations) + %d tool calls "
                           "(distribution_for_length for the 32 statistics with and without a class, "
